@@ -120,6 +120,10 @@ def run(ctx):
         for qi in range(nq):
             a = boundary_coord(r)
             b = a + r.choice([0, 1, 5, SIZES[0] - 1, SIZES[0], 2 * SIZES[0], SIZES[1], SIZES[2], r.randrange(0, 2 * SIZES[0])])
+            half = [f for f in feats if (iv(f["start"]) is None) != (iv(f["end"]) is None)]
+            if 6 <= qi < 9 and half:        # a point query at the one known coordinate of a half-'.' feature
+                f0 = half[(qi - 6) % len(half)]
+                a = b = iv(f0["start"]) if iv(f0["start"]) is not None else iv(f0["end"])
             if qi < 6:                      # the 2^29 limit itself, deterministically
                 a, b = [(1, M), (M - 5, M), (M, M), (M - 1, M + 3), (1, M - 1), (M - 3, M - 1)][qi]
             if r.random() < 0.3:
@@ -128,6 +132,8 @@ def run(ctx):
                     a, b = iv(f0["start"]) + r.choice([-1, 0, 1]), iv(f0["end"]) + r.choice([-1, 0, 1])
                     a = max(1, a); b = max(a, b)
             seqid = r.choice(["chr1", "chr1", "chr2", "chrZ"])
+            if 6 <= qi < 9 and half:
+                seqid = f0["seqid"]
             within = r.random() < 0.5
             strand = r.choice([None, None, "+", "-"])
             ft = r.choice([None, None, "exon", ["exon", "CDS"], ["gene"]])
